@@ -1813,19 +1813,7 @@ impl Element {
                     AttrPrefixKind::Invalid(_) => {}
                 }
             } else {
-                let pos = ps.position();
-                loop {
-                    let Some(peek) = ps.peek::<0>() else { break };
-                    if peek == '/'
-                        || peek == '>'
-                        || Ident::is_start_char(peek)
-                        || char::is_whitespace(peek)
-                    {
-                        break;
-                    }
-                    ps.next();
-                }
-                ps.add_warning(ParseErrorKind::InvalidAttributeName, pos..ps.position());
+                skip_invalid_attribute_name(ps, true);
             }
         }
 
@@ -2594,19 +2582,32 @@ impl CustomAttribute {
                     ret.push(attr);
                 }
             } else {
-                let pos = ps.position();
-                loop {
-                    let Some(peek) = ps.peek::<0>() else { break };
-                    if peek == '>' || Ident::is_start_char(peek) || char::is_whitespace(peek) {
-                        break;
-                    }
-                    ps.next();
-                }
-                ps.add_warning(ParseErrorKind::InvalidAttributeName, pos..ps.position());
+                skip_invalid_attribute_name(ps, false);
             }
         }
         ret
     }
+}
+
+/// Skip the characters that cannot be part of an attribute (and report them).
+///
+/// The current character cannot start an attribute; it is always consumed,
+/// so that the attribute loops of the callers always make progress.
+fn skip_invalid_attribute_name(ps: &mut ParseState, stop_at_slash: bool) {
+    let pos = ps.position();
+    ps.next();
+    loop {
+        let Some(peek) = ps.peek::<0>() else { break };
+        if (stop_at_slash && peek == '/')
+            || peek == '>'
+            || Ident::is_start_char(peek)
+            || char::is_whitespace(peek)
+        {
+            break;
+        }
+        ps.next();
+    }
+    ps.add_warning(ParseErrorKind::InvalidAttributeName, pos..ps.position());
 }
 
 #[derive(Debug, Clone)]
